@@ -92,7 +92,9 @@ def run_subdivide(nodes, flat, as_tuples=False, judge_curve=True, monitor=True):
     s_p = [[conv(h_in), conv(pt), conv(h_out)] for (h_in, pt, h_out) in nodes]
     originals = list(s_p)
     start = snapshot(s_p)
-    desc = f"subdivideCubicPath({[tuple(map(tuple, n)) for n in s_p]}, {flat})" + \
+    shown = [tuple(map(tuple, n)) for n in s_p[:80]]
+    desc = (f"subdivideCubicPath({shown}, {flat})" if len(s_p) <= 80 else
+            f"subdivideCubicPath(<{len(s_p)} nodes beginning {shown[:3]}>, {flat})") + \
         (" [points given as tuples]" if as_tuples else "")
     real_bezmisc = plot_utils.bezmisc
     states = [start]
@@ -233,6 +235,18 @@ def long_node_lists():
     return out
 
 
+def crowd_node_lists(thorough):
+    """The same chained pattern at sizes around the powers of two a list-length threshold
+    would pick (255..257, 511..513, 1025, 1300; thorough 4097): work done per block of
+    nodes, a seam between blocks.  Judged on the final list, without the per-split monitor."""
+    out = []
+    for count in (255, 256, 257, 511, 512, 513, 1025, 1300) + ((4097,) if thorough else ()):
+        mult = (3, 5, 7) if count % 2 else (2, 7, 4)
+        out.append(tuple((LATTICE[(mult[1] * k + 1) % 9], LATTICE[(mult[0] * k) % 9],
+                          LATTICE[(mult[2] * k + 2) % 9]) for k in range(count)))
+    return out
+
+
 # (scale, shift): a big copy, and the *same-sized* curve two thousand million units from the
 # origin - there every coordinate-relative notion of "equal" (math.isclose, 1e-9 * |x|) is
 # coarser than the curve itself, while all the arithmetic that matters stays exact
@@ -307,10 +321,11 @@ def _chunk(args):
             (two_pieces(item) if kind == "two" else item)
         if kind in ("needle", "deep"):
             nodes, flats = item[0], [item[1]]
+        tag = item if kind != "crowd" else f"{len(item)} nodes"
         for flat in flats:
             bad, splits = run_subdivide(nodes, flat, as_tuples,
                                         judge_curve=kind not in ("needle", "deep"),
-                                        monitor=kind != "deep")
+                                        monitor=kind not in ("deep", "crowd"))
             part.count("calls")
             part.count("states", splits + 1)
             part.count("transitions", max(splits, 1))
@@ -318,15 +333,15 @@ def _chunk(args):
                 part.count("nontrivial")
             part.counters["max_splits"] = max(part.counters.get("max_splits", 0), splits)
             for clause, msg in bad:
-                part.violation(f"{clause}:{kind}:{item}:{flat}", msg,
+                part.violation(f"{clause}:{kind}:{tag}:{flat}", msg,
                                {"kind": "curve", "nodes": [[list(p) for p in n] for n in nodes],
                                 "flat": flat, "as_tuples": as_tuples,
                                 "judge_curve": kind not in ("needle", "deep"),
-                                "monitor": kind != "deep"})
+                                "monitor": kind not in ("deep", "crowd")})
     if items:
         mid = items[len(items) // 2]
-        part.sample({"family": kind, "control_points": [list(p) for p in mid] if kind not in ("raw", "needle", "deep")
-                     else str(mid), "flatness": list(flats)}, limit=1)
+        part.sample({"family": kind, "control_points": [list(p) for p in mid] if kind not in ("raw", "needle", "deep", "crowd")
+                     else str(mid)[:300], "flatness": list(flats)}, limit=1)
     return part
 
 
@@ -353,6 +368,8 @@ def run(ctx):
     jobs.append(("raw", single, flats))
     for nodes in long_node_lists():
         jobs.append(("raw", [nodes], [0.3, 1.0]))
+    for nodes in crowd_node_lists(ctx.thorough):
+        jobs.append(("crowd", [nodes], [0.3, 1.0]))
     for chunk in core.split(ones[::ctx.pick(5, 1)], 16):
         jobs.append(("similar", chunk, [0.3, 1.0]))
     jobs.append(("needle", needle_node_lists(), None))
@@ -368,7 +385,8 @@ def run(ctx):
         "rule": "all one-piece curves with 4 control points on the 3x3 lattice (6561) x flatness "
                 f"{flats}; two-piece node lists over a 5-point sub-lattice (5^7, every 9th in "
                 "quick); the one-piece curves again with points given as tuples (flatness 0.3, 1.0); "
-                "empty and single-node lists; six chained lists of 10..60 nodes; every 5th "
+                "empty and single-node lists; six chained lists of 10..60 nodes; eight (thorough nine) of "
+                "255, 256, 257, 511, 512, 513, 1025, 1300 (4097) nodes; every 5th "
                 "one strongly curved piece at flatness 2^-23 (about 2^16 pieces, 16 halvings in a row); 36 x 2 long nearly straight pieces (flatness 4e-9 of the chord, control points 0.5..8 flatness units off it); (thorough: every) one-piece curve again unscaled but shifted by (2^31, -2^30), and scaled by 2^16 and shifted by (2^20, "
                 "-2^21), which must give the image of the unscaled result; states = node lists observed after every "
                 "split; non-trivial = calls that split at least once; all inputs distinct",
